@@ -79,6 +79,9 @@ func runCLI(cs c16Case) cliResult {
 	case "dash":
 		args = append(args, "-f", "-")
 		stdin = bytes.NewReader([]byte(cs.Doc))
+	case "dash-eq":
+		args = append(args, "--file=-")
+		stdin = bytes.NewReader([]byte(cs.Doc))
 	case "file":
 		args = append(args, "--file", docFile)
 	case "missing":
@@ -552,6 +555,37 @@ func init() {
 				add(c16Case{Cmd: "mkdir", Doc: d.doc, DocName: d.name, Args: []string{"--dry-run"}, Input: "stdin", Stdout: "pipe", Target: tg})
 				add(c16Case{Cmd: "verify", Doc: d.doc, DocName: d.name, Args: []string{"--strict"}, Input: "stdin", Stdout: "pipe", Target: tg, Pre: map[string]byte{"~out/a/b": 'd', "~v/w/a": 'd'}})
 			}
+		}
+		// verify with 255, 256, 257 and 512 missing paths below an existing root (and 200 missing + 56 extra, strict):
+		// a failure is a failure however many paths the report lists
+		for _, nMissing := range []int{255, 256, 257, 512} {
+			var sb strings.Builder
+			sb.WriteString("- a\n")
+			for i := 0; i < nMissing; i++ {
+				fmt.Fprintf(&sb, "  - m%03d\n", i)
+			}
+			add(c16Case{Cmd: "verify", Doc: sb.String(), DocName: fmt.Sprintf("root-with-%d-children", nMissing), Input: "stdin", Stdout: "pipe", Target: "dir", Pre: map[string]byte{"a": 'd'}})
+			add(c16Case{Cmd: "verify", Doc: sb.String(), DocName: fmt.Sprintf("root-with-%d-children", nMissing), Args: []string{"--strict"}, Input: "file", Stdout: "pipe", Target: "dir", Pre: map[string]byte{"a": 'd'}})
+		}
+		{
+			var sb strings.Builder
+			pre := map[string]byte{}
+			sb.WriteString("- a\n")
+			for i := 0; i < 200; i++ {
+				fmt.Fprintf(&sb, "  - m%03d\n", i)
+			}
+			for i := 0; i < 56; i++ {
+				pre[fmt.Sprintf("a/x%02d", i)] = 'd'
+			}
+			add(c16Case{Cmd: "verify", Doc: sb.String(), DocName: "200-missing-56-extra", Args: []string{"--strict"}, Input: "stdin", Stdout: "pipe", Target: "dir", Pre: pre})
+		}
+		// "-" as the file name means standard input for every subcommand
+		for _, d := range docs[:3] {
+			add(c16Case{Cmd: "mkdir", Doc: d.doc, DocName: d.name, Args: []string{"-e", ".go"}, Input: "dash", Stdout: "pipe", Target: "dir"})
+			add(c16Case{Cmd: "mkdir", Doc: d.doc, DocName: d.name, Args: []string{"--dry-run"}, Input: "dash", Stdout: "pipe", Target: "dir"})
+			add(c16Case{Cmd: "verify", Doc: d.doc, DocName: d.name, Args: []string{"--strict"}, Input: "dash", Stdout: "pipe", Target: "dir", Pre: map[string]byte{"a/b": 'd', "a/c.go": 'f'}})
+			add(c16Case{Cmd: "verify", Doc: d.doc, DocName: d.name, Input: "dash-eq", Stdout: "pipe", Target: "dir", Pre: map[string]byte{"a/b": 'd'}})
+			add(c16Case{Cmd: "mkdir", Doc: d.doc, DocName: d.name, Input: "dash-eq", Stdout: "pipe", Target: "dir", Pre: map[string]byte{"-": 'f'}})
 		}
 		// boolean flags spelled out with a value
 		for _, d := range docs[:3] {
